@@ -16,7 +16,9 @@ BUDGET = {"quick": 420, "thorough": 3000}
 ALPHABET = ["enable", "link_up", "s1f14_ok_latest", "s1f13", "tick", "s1f14_nak_latest", "s1f14_ok_alien", "link_lost", "s1f1",
             "user_msg", "s1f14_ok_stale", "disable"]
 
-T3, DELAY = gh.T3, gh.DELAY
+# timer configurations: the default (T3 > delay) and one where two reply time-outs fit into one delay (T3 << delay), so that
+# a timer armed by an earlier attempt can still be pending when a later attempt has failed
+TIMERS = {"default": (gh.T3, gh.DELAY), "short_t3": (2.0, 10)}
 
 
 def make_handler_class(role, calls, endpoint_box):
@@ -37,11 +39,14 @@ def make_handler_class(role, calls, endpoint_box):
 
 
 class Harness:
-    def __init__(self, s, role):
+    def __init__(self, s, role, timers="default"):
         self.s = s
         self.role = role
         self.calls = []
-        self.ep = gh.GemEndpoint(role, handler_cls=make_handler_class(role, self.calls, None))
+        self.t3, self.delay = TIMERS[timers]
+        self.naks = {}  # system bytes of an S1F13 -> time its refusal (S1F14 COMMACK 1) was delivered
+        self.ep = gh.GemEndpoint(role, handler_cls=make_handler_class(role, self.calls, None), t3=self.t3,
+                                 establish_communication_timeout=self.delay)
         self.h = self.ep.handler
         self.h.register_stream_function(5, 1, self._user_cb)
         self.viol = []
@@ -109,7 +114,7 @@ class Harness:
             self.post(ev, frames, n_calls, False)
             return True
         elif ev in ("s1f14_ok_latest", "s1f14_nak_latest"):
-            open13 = [x for x in self.sent13 if x[1] + T3 > s.clock]
+            open13 = [x for x in self.sent13 if x[1] + self.t3 > s.clock]
             if not open13 or open13[-1] is not self.sent13[-1]:
                 return False
             ack = 0 if ev == "s1f14_ok_latest" else 1
@@ -117,8 +122,10 @@ class Harness:
             if ack == 0:
                 self.ok = True
                 must_establish = True
+            else:
+                self.naks.setdefault(self.sent13[-1][0], s.clock)
         elif ev == "s1f14_ok_stale":
-            stale = [x for x in self.sent13 if x[1] + T3 <= s.clock or x is not self.sent13[-1]]
+            stale = [x for x in self.sent13 if x[1] + self.t3 <= s.clock or x is not self.sent13[-1]]
             if not stale:
                 return False
             ep.send_primary(1, 14, False, gh.body_s1f14(0, from_host), system=stale[0][0])
@@ -145,6 +152,14 @@ class Harness:
     def note(self, frames):
         for f in frames:
             if f["stype"] == 0 and (f["stream"], f["function"]) == (1, 13):
+                if self.sent13:
+                    # I5: a retry on the same link comes no earlier than the configured delay after the previous attempt failed
+                    # (failed = refused by S1F14 COMMACK 1, or unanswered for T3)
+                    psys, pt = self.sent13[-1]
+                    failed = min(pt + self.t3, self.naks.get(psys, float("inf")))
+                    if f["t"] < failed + self.delay - 0.001:
+                        self.v("I5-retry-before-the-configured-delay", previous_attempt=round(pt, 3), failed_at=round(failed, 3),
+                               retry_at=round(f["t"], 3), delay=self.delay)
                 self.sent13.append((f["system"], f["t"]))
 
     def post(self, ev, frames, n_calls, must_establish):
@@ -174,7 +189,7 @@ class Harness:
         self.pre = ep.comm()
         t0 = s.clock
         n0 = len(self.sent13)
-        limit = t0 + T3 + DELAY + 0.001
+        limit = t0 + self.t3 + self.delay + 0.001
         guard = 0
         while len(self.sent13) == n0 and guard < 50:
             guard += 1
@@ -197,11 +212,11 @@ class Harness:
                 "queues": len(getattr(h.protocol, "_response_queues", {}) or {})}
 
 
-def run_history(history, role="equipment", probe=True):
+def run_history(history, role="equipment", probe=True, timers="default"):
     out = {}
 
     def driver(s):
-        hx = Harness(s, role)
+        hx = Harness(s, role, timers)
         s.hx = hx
         for i, ev in enumerate(history):
             if not hx.apply(ev):
@@ -225,12 +240,13 @@ def run_history(history, role="equipment", probe=True):
         out["canon"] = {"stuck": sched.outcome, "n": len(history)}
         out["terminal"] = True
     for _sig, d in out["v"]:
-        d.setdefault("case", {"role": role})
+        d.setdefault("case", {"role": role, "timers": timers})
     return out
 
 
 def run(ctx):
     ctx.assumptions += [
+        "I5 (added): on one link, an S1F13 retry is not sent before previous-attempt-failure + configured delay (checked in both timer configurations)",
         "I1-I4 of DESIGN.md 3/C07 are the oracle (the statement constrains observable behaviour, not E30's internal sub-states)",
         "a late S1F14 answering an earlier S1F13 of the same link may or may not establish communication (both accepted)",
         "histories settle after every event under the default schedule; timers fire only through the explicit 'tick' event",
@@ -238,9 +254,10 @@ def run(ctx):
     d0, d1 = (5, 16) if ctx.thorough else (4, 12)
     states = trans = 0
     parts = []
-    for role in ("equipment", "host"):
-        st = hbfs.search(ctx, run_history, ALPHABET, f"c07-{role}", d0, d1, opts={"role": role})
-        parts.append({"role": role, **st})
+    for role, timers in (("equipment", "default"), ("host", "default"), ("equipment", "short_t3"), ("host", "short_t3")):
+        name = f"c07-{role}" + ("" if timers == "default" else "-" + timers)
+        st = hbfs.search(ctx, run_history, ALPHABET, name, d0, d1, opts={"role": role, "timers": timers})
+        parts.append({"role": role, "timers": dict(zip(("T3", "delay"), TIMERS[timers])), **st})
         states += st["states"]
         trans += st["transitions"]
     ctx.setcov("states", states)
@@ -255,7 +272,8 @@ def run(ctx):
 def replay(ctx, detail):
     case = detail["case"]
     role = case.get("role") or case.get("opts", {}).get("role", "equipment")
-    r = run_history(case["history"], role=role)
+    timers = case.get("timers") or case.get("opts", {}).get("timers", "default")
+    r = run_history(case["history"], role=role, timers=timers)
     ctx.evaluations += 1
     print("replayed history", case["history"], "->", r.get("canon"))
     for sig, d in r.get("v", ()):
